@@ -58,6 +58,7 @@ type PRes struct {
 	SizeStep    int         `json:"size_step,omitempty"` // every new version of the representation is this much longer
 	Hdr416      string      `json:"hdr416,omitempty"`        // cache headers of a 416 answer: "" (the resource's own) | "none" | "no-store" | "max-age=3600"
 	CondMode    string      `json:"cond,omitempty"`          // "304" (default: proper revalidation) | "200" | "404" | "500"
+	LastModForm string       `json:"lastmod_form,omitempty"` // "" IMF-fixdate | rfc850 | asctime (obsolete forms a recipient must accept) | junk
 	Gzip        bool         `json:"gzip,omitempty"` // the origin compresses the representation (Content-Encoding: gzip) for requests that accept gzip
 	EvictOnCond bool        `json:"evict_on_cond,omitempty"` // the stored entries are deleted while a conditional request for this resource is at the origin
 	BumpAtMs    []int64     `json:"bump_at,omitempty"`
@@ -440,6 +441,14 @@ func (w *proxyWorld) originHandler(rw http.ResponseWriter, req *http.Request) {
 	lastMod := ""
 	if r.LastMod {
 		lastMod = w.versionBirth(ri, v).UTC().Format(http.TimeFormat)
+		switch r.LastModForm {
+		case "rfc850":
+			lastMod = w.versionBirth(ri, v).UTC().Format("Monday, 02-Jan-06 15:04:05 GMT")
+		case "asctime":
+			lastMod = w.versionBirth(ri, v).UTC().Format(time.ANSIC)
+		case "junk":
+			lastMod = fmt.Sprintf("version %d, some time ago", v)
+		}
 		h.Set("Last-Modified", lastMod)
 	}
 	h.Set("Content-Type", fmt.Sprintf("application/x-sim; v=%d", v))
